@@ -185,7 +185,9 @@ func (s *subject) apply(op Op) *panicInfo {
 		for _, id := range op.L {
 			eps = append(eps, s.tab[id])
 		}
-		return guard(func() { s.sel.Refresh(eps) })
+		pi := guard(func() { s.sel.Refresh(eps) })
+		scribble(eps)
+		return pi
 	case "add":
 		return guard(func() { _ = s.sel.Add(s.tab[op.E]) })
 	case "remove":
@@ -340,4 +342,19 @@ func (m *model) canon(cfg *Config) string {
 		sort.Ints(l)
 	}
 	return fmt.Sprint(l)
+}
+
+// scribble: the list handed to Refresh stays the caller's (the endpoint manager goes on removing from
+// and sorting its list in place); whatever the caller does to it afterwards is not an update of the
+// selector.  Every slot is overwritten with an endpoint that is in no set.
+func scribble(eps []endpoint.Endpoint) {
+	for i := range eps {
+		p := eps[i]
+		p.Host, p.Key = "poison.invalid", "poison.invalid:1"
+		eps[i] = p
+	}
+	// the spare capacity, too: an in-place filter would append there
+	for i, full := len(eps), eps[:cap(eps)]; i < len(full); i++ {
+		full[i].Host, full[i].Key = "poison.invalid", "poison.invalid:1"
+	}
 }
